@@ -257,3 +257,85 @@ func runMutantsCmd(pos []string, repo, verif string) int {
 }
 
 func runSelftest(verif string) int { return 0 }
+
+// runSeedMatrix applies every independently seeded change kept under
+// seeded/<pid>-*/ to a scratch copy of the current tree and requires the
+// property's own check to fail on it. Like the mutant matrix this validates the
+// checker only.
+func runSeedMatrix(pid, repo, verif string) any {
+	dirs, _ := filepath.Glob(filepath.Join(verif, "seeded", pid+"-*"))
+	sort.Strings(dirs)
+	type res struct {
+		ID     string   `json:"id"`
+		Status string   `json:"status"`
+		Rules  []string `json:"rules,omitempty"`
+		Note   string   `json:"note,omitempty"`
+	}
+	out := make([]res, len(dirs))
+	sem := make(chan struct{}, 4)
+	var wg sync.WaitGroup
+	exe, _ := os.Executable()
+	for i, d := range dirs {
+		wg.Add(1)
+		sem <- struct{}{}
+		go func(i int, d string) {
+			defer wg.Done()
+			defer func() { <-sem }()
+			r := res{ID: filepath.Base(d)}
+			defer func() { out[i] = r }()
+			tmp, err := os.MkdirTemp("", "sdbcheck-seed-")
+			if err != nil {
+				r.Status = "error"
+				return
+			}
+			defer os.RemoveAll(tmp)
+			if err := copyRepo(repo, tmp); err != nil {
+				r.Status, r.Note = "error", err.Error()
+				return
+			}
+			p := exec.Command("patch", "-p1", "-s", "-i", filepath.Join(d, "patch.diff"))
+			p.Dir = tmp
+			if o, err := p.CombinedOutput(); err != nil {
+				r.Status, r.Note = "not-applicable", "patch does not apply to this tree: "+firstLine(string(o))
+				return
+			}
+			o, _ := exec.Command(exe, "check", pid, "--no-evidence", "--json", "--repo", tmp, "--verif", verif).Output()
+			s := string(o)
+			if strings.Contains(s, "CANNOT-ANALYSE") {
+				r.Status = "does-not-compile"
+				return
+			}
+			if strings.Contains(s, "VIOLATION property="+pid) {
+				r.Status = "caught"
+				seen := map[string]bool{}
+				for _, line := range strings.Split(s, "\n") {
+					line = strings.TrimSpace(line)
+					if strings.HasPrefix(line, "VIOLATION ") || strings.HasPrefix(line, "UNDECIDED ") {
+						f := strings.Fields(line)
+						if len(f) > 1 && strings.Contains(f[1], "|") {
+							rule := strings.SplitN(f[1], "|", 2)[0]
+							if !seen[rule] {
+								seen[rule] = true
+								r.Rules = append(r.Rules, rule)
+							}
+						}
+					}
+				}
+			} else {
+				r.Status = "MISSED"
+			}
+		}(i, d)
+	}
+	wg.Wait()
+	caught, missed := 0, 0
+	for _, r := range out {
+		switch r.Status {
+		case "caught":
+			caught++
+		case "MISSED":
+			missed++
+		}
+	}
+	return map[string]any{"seeds": len(out), "caught": caught, "missed": missed, "results": out,
+		"note": "independently seeded property-breaking changes (seeded/), each applied to a scratch copy of the current tree; the property's own check must fail. Checker validation only."}
+}
